@@ -14,7 +14,7 @@ CLAIMED = {
             "Static decision that crypto/rand is the only randomness reachable, read with a short-read-safe call whose error is inspected, every buffer use on the no-error edge, the error edge failing closed, no recover anywhere, and every non-constant index on generation paths a counter or a bounded draw. Covers all recipes, streams and failure positions because there is exactly one read site and the rule is over its CFG.",
             "Trusted: crypto/rand.Read/io.ReadFull contract, OS source, go/ssa model, VTA call graph. Not decided: alphabet order non-determinism from map iteration (harmless).",
             "DESIGN.md section 3 C09"),
-    "C16": ("constant/table extraction from types and the initialiser's SSA, compared with the documented values; list literals vs testdata files; retry loop of exactly MaxTrials attempts; effect analysis re-run (no state carried between calls of the character recipe)",
+    "C16": ("constant/table extraction from types and the initialiser's SSA, compared with the documented values; list literals vs testdata files; retry loop of exactly MaxTrials attempts; effect analysis re-run (no state carried between calls of the character recipe); module-wide who-may-write rule with an empty allow-list on every package-level variable of the library (stores, map/slice updates, address escapes)",
             "Exhaustive static comparison of the finite set of documented constants, defaults, preset recipes and embedded list entries with the source; preset behaviour reduces to C01/C02/C06 for the extracted recipe.",
             "Trusted: go/constant, go/ssa lowering of composite literals. Not decided: output distribution of presets as such.",
             "DESIGN.md section 3 C16"),
@@ -54,7 +54,7 @@ CLAIMED = {
             "Static decision that encoder (MakeIndices, Kind) and decoder (Tokenize) agree on units, kind tables, per-kind layout and sizes, and that lossy conversions are guarded exactly at 255; with Split/Join inverse (trusted) this gives the round trip for all tokens of 1..255 characters, ASCII or not.",
             "Trusted: strings.Split(s,\"\")/Join inverse on character boundaries; utf8.RuneCountInString counts the same units. Not decided: value equality as such.",
             "DESIGN.md section 3 C11"),
-    "C17": ("table extraction from the CLI's initialiser, provenance of recipe-field stores, CFG path rules on main with exit calls as terminators (exit statuses, exactly-one-stdout-write), stdout who-may-write over the call graph",
+    "C17": ("table extraction from the CLI's initialiser, provenance of recipe-field stores, CFG path rules on main with exit calls as terminators (exit statuses, exactly-one-stdout-write), stdout who-may-write over the call graph, handle discipline on os.Stdout (used only as destination of counted writes), who-may-write rule on the CLI's package-level tables and defaults",
             "Partial (structural clauses, CLI not executed): flag-word tables, defaults, recipe wiring, exit statuses and stdout discipline decided for all command lines at once on the source. That the printed password satisfies the recipe is C03/C05 for the wired recipe.",
             "Trusted: package flag (ExitOnError => status 2), log.Fatal (stderr, status 1). Not decided: behaviour for unknown separator/class words; the binary's runtime behaviour.",
             "DESIGN.md section 3 C17"),
